@@ -3,7 +3,6 @@ using SP_s2_s = SplineTrajectory::SepticSplineND<2>;
 using TM_s2_s = env::SimTimeMap;
 using SM_s2_s = env::SimSpatialMap<2>;
 OPT_REGISTER_ONE(C12, P_C12, s2_s, SP_s2_s, TM_s2_s, SM_s2_s, true, 3)
-#ifndef STSIM_TSAN
 OPT_REGISTER_ONE(C07, P_C07, s2_s, SP_s2_s, TM_s2_s, SM_s2_s, true, 1)
 OPT_REGISTER_ONE(C08, P_C08, s2_s, SP_s2_s, TM_s2_s, SM_s2_s, true, 1)
 OPT_REGISTER_ONE(C09, P_C09, s2_s, SP_s2_s, TM_s2_s, SM_s2_s, true, 1)
@@ -11,4 +10,3 @@ OPT_REGISTER_ONE(C10, P_C10, s2_s, SP_s2_s, TM_s2_s, SM_s2_s, true, 1)
 OPT_REGISTER_ONE(C15, P_C15, s2_s, SP_s2_s, TM_s2_s, SM_s2_s, true, 3)
 OPT_REGISTER_ONE(C16, P_C16, s2_s, SP_s2_s, TM_s2_s, SM_s2_s, true, 1)
 OPT_REGISTER_ONE(C19, P_C19, s2_s, SP_s2_s, TM_s2_s, SM_s2_s, true, 1)
-#endif
